@@ -669,7 +669,37 @@ func init() {
 				}
 			}
 		}
-		c.close([]string{"step:cookie:saveclear", "step:redis:saveclear", "step:cookie:save", "step:cookie:clear", "step:redis:save", "step:redis:clear", "save:cookie:one-cookie", "save:two-parts",
+		// cookie-expire 0 (browser-session cookies; the server-side entry never expires): what was saved is what the next request
+		// loads also when that request comes seconds later
+		for _, redis := range []bool{true, false} {
+			e, err := newEnv(c, proxyCfg{Redis: redis, RedisRealTime: redis, CookieExpire: -1, InjectRequest: defaultInject()})
+			if err != nil {
+				c.violation("HARNESS", "env (cookie-expire 0): "+err.Error(), nil)
+				continue
+			}
+			b := newBrowser()
+			if lr := e.login(b, defaultUser(), "/"); lr.OK {
+				first := len(e.do(reqSpec{Target: "/app/at-once", Cookie: b.cookieHeader()}).Hits) > 0
+				time.Sleep(1600 * time.Millisecond)
+				later := len(e.do(reqSpec{Target: "/app/later", Cookie: b.cookieHeader()}).Hits) > 0
+				ttl := time.Duration(0)
+				if redis {
+					for _, k := range e.mr.Keys() {
+						ttl = e.mr.TTL(k)
+					}
+				}
+				c.casen(fmt.Sprintf("c10|no-expiry|%v", redis), fmt.Sprint(first, later))
+				c.count("c10:no-expiry-configured")
+				if !first || !later {
+					c.violation("C10", "cookie-expire 0 (no expiry): the session a login saved is loaded at once but NOT 1.6 s later — its server-side entry was stored with a lifetime nobody configured",
+						map[string]interface{}{"redis": redis, "loaded_at_once": first, "loaded_1.6s_later": later, "ttl_of_the_entry": ttl.String()})
+				}
+			} else {
+				c.violation("HARNESS", "login failed (cookie-expire 0)", nil)
+			}
+			e.close()
+		}
+		c.close([]string{"c10:no-expiry-configured", "step:cookie:saveclear", "step:redis:saveclear", "step:cookie:save", "step:cookie:clear", "step:redis:save", "step:redis:clear", "save:cookie:one-cookie", "save:two-parts",
 			"save:three-parts", "save:4+parts", "save:deleted-stale", "size:near-threshold", "size:tiny", "size:multi-kb", "size:huge",
 			"c10:loads-last-saved", "c11:nothing-loads-after-clear", "c11:deletion-matches", "redis:ticket-reused", "jar:foreign-cookies",
 			"c18:set-cookie"})
